@@ -6,11 +6,16 @@ import (
 	"go/token"
 	"go/types"
 	"math/big"
+	"os"
+	"runtime/debug"
 	"strings"
 	"unicode/utf8"
 
 	"golang.org/x/tools/go/ssa"
 )
+
+// debugAborts (env SSASYM_DEBUG=1) prints the engine's Go stack at every not-encodable abort.
+var debugAborts = os.Getenv("SSASYM_DEBUG") != ""
 
 // abort is an engine-level non-local exit (never visible to the interpreted program).
 type abortKind int
@@ -28,9 +33,10 @@ type abort struct {
 
 // goPanic is a panic of the interpreted program.
 type goPanic struct {
-	val Value
-	msg string
-	fn  string // function in which it was raised
+	val     Value
+	msg     string
+	fn      string // function in which it was raised
+	blocked bool   // the distinguished verifBlocked panic of the channel model (chan.go)
 }
 
 type frameStatus int
@@ -78,6 +84,14 @@ type Interp struct {
 
 	Entered map[*ssa.Function]bool // functions with bodies entered (kept across paths)
 	StubHit map[string]bool        // stubs used (kept across paths)
+
+	HarnessPkg *ssa.Package    // the package the harness is overlaid into
+	GoIgnored  map[string]bool // `go` statements recorded and ignored (kept across paths)
+	Repl       *replTable      // harness-supplied contracts (replace.go); nil if none
+	ReplUsed   map[string]bool // "target => replacement" entries used (kept across paths)
+	replActive map[*ssa.Function]int
+	replDepth  int
+	ghostCache map[*ssa.Global]bool
 }
 
 func (in *Interp) resetPath() {
@@ -87,12 +101,17 @@ func (in *Interp) resetPath() {
 	in.tolerant = 0
 	in.steps = 0
 	in.depth = 0
+	in.replActive = map[*ssa.Function]int{}
+	in.replDepth = 0
 }
 
 func (in *Interp) notEncodable(format string, a ...interface{}) Value {
 	msg := fmt.Sprintf(format, a...)
 	if in.tolerant > 0 {
 		return Poison{msg}
+	}
+	if debugAborts {
+		fmt.Fprintf(os.Stderr, "ssasym: not-encodable: %s\n%s\n", msg, debug.Stack())
 	}
 	panic(&abort{abNotEncodable, msg})
 }
@@ -116,8 +135,41 @@ func (in *Interp) global(g *ssa.Global) *Value {
 	slot := new(Value)
 	*slot = in.zero(g.Type().(*types.Pointer).Elem())
 	in.globals[g] = slot
+	if in.isGhostGlobal(g) {
+		return slot
+	}
 	in.ensureInit(g.Pkg)
 	return slot
+}
+
+// isGhostGlobal: a package-level variable of the harness package whose name starts with "verif"
+// and that has no initialiser is harness state ("ghost variable", e.g. what a contract records
+// about its arguments). It is zero at the start of every path, reading it does not run the
+// target package's initialiser, and it stays usable when that initialiser is not encodable.
+func (in *Interp) isGhostGlobal(g *ssa.Global) bool {
+	if g.Pkg == nil || g.Pkg != in.HarnessPkg || !strings.HasPrefix(g.Name(), "verif") {
+		return false
+	}
+	if r, ok := in.ghostCache[g]; ok {
+		return r
+	}
+	ghost := true
+	if initFn := g.Pkg.Func("init"); initFn != nil {
+		for _, b := range initFn.Blocks {
+			for _, ins := range b.Instrs {
+				for _, op := range ins.Operands(nil) {
+					if *op == ssa.Value(g) {
+						ghost = false // has an initialiser: an ordinary package variable
+					}
+				}
+			}
+		}
+	}
+	if in.ghostCache == nil {
+		in.ghostCache = map[*ssa.Global]bool{}
+	}
+	in.ghostCache[g] = ghost
+	return ghost
 }
 
 func (in *Interp) ensureInit(pkg *ssa.Package) {
@@ -165,7 +217,7 @@ func (fr *frame) get(v ssa.Value) Value {
 		return fr.in.constValue(x)
 	case *ssa.Global:
 		slot := fr.in.global(x)
-		if fr.in.pkgInit[x.Pkg] == 3 {
+		if fr.in.pkgInit[x.Pkg] == 3 && !fr.in.isGhostGlobal(x) {
 			// initialiser failed: nothing about this package's variables is known
 			p := new(Value)
 			*p = Poison{"package " + x.Pkg.Pkg.Path() + " initialiser not encodable: " + fr.in.pkgFail[x.Pkg]}
@@ -425,11 +477,14 @@ func (in *Interp) visit(fr *frame, instr ssa.Instruction) cont {
 			}
 		}
 		panic(&goPanic{val: v, msg: msg, fn: fr.fn.String()})
-	case *ssa.Send, *ssa.Go, *ssa.Select, *ssa.MakeChan:
-		in.notEncodable("unsupported instruction %T in %s", instr, fr.fn)
-		if v, ok := instr.(ssa.Value); ok {
-			fr.env[v] = Poison{"channel/goroutine instruction"}
-		}
+	case *ssa.Go:
+		in.goStmt(fr, x)
+	case *ssa.MakeChan:
+		fr.env[x] = in.makeChan(fr, x)
+	case *ssa.Send:
+		in.chanSend(fr, fr.get(x.Chan), fr.get(x.X))
+	case *ssa.Select:
+		fr.env[x] = in.selectOp(fr, x)
 	case *ssa.Store:
 		in.store(fr, fr.get(x.Addr), fr.get(x.Val))
 	case *ssa.If:
@@ -704,6 +759,9 @@ func (in *Interp) unop(fr *frame, x *ssa.UnOp) Value {
 		}
 		return r
 	}
+	if x.Op == token.ARROW {
+		return in.chanRecv(fr, v, x.X.Type().Underlying().(*types.Chan).Elem(), x.CommaOk)
+	}
 	if p, ok := v.(Poison); ok {
 		return in.usePoison(p)
 	}
@@ -838,7 +896,13 @@ func (in *Interp) binop(fr *frame, op token.Token, tx, ty types.Type, xv, yv Val
 		}
 		if x.Opaque || y.Opaque {
 			if op == token.ADD {
-				return StrV{Opaque: true}
+				return StrV{Opaque: true, NonEmpty: x.knownNonEmpty() || y.knownNonEmpty()}
+			}
+			if op == token.EQL || op == token.NEQ {
+				// a string known to be non-empty differs from ""
+				if (x.knownNonEmpty() && !y.Opaque && y.Len() == 0) || (y.knownNonEmpty() && !x.Opaque && x.Len() == 0) {
+					return P.Bool(op == token.NEQ)
+				}
 			}
 			return in.notEncodable("comparison of a formatted (opaque) string in %s", fr.fn)
 		}
@@ -967,6 +1031,13 @@ func (in *Interp) eqValue(a, b Value) *Term {
 		if b == nil {
 			return P.Bool(x == nil)
 		}
+	case *ChanV:
+		if y, ok := b.(*ChanV); ok {
+			return P.Bool(x == y)
+		}
+		if b == nil {
+			return P.Bool(x == nil)
+		}
 	case IfaceV:
 		y, ok := b.(IfaceV)
 		if !ok {
@@ -1025,6 +1096,8 @@ func isNilValue(v Value) bool {
 	case *MapV:
 		return x == nil
 	case *ClosureV:
+		return x == nil
+	case *ChanV:
 		return x == nil
 	case IfaceV:
 		return x.T == nil
@@ -1467,7 +1540,13 @@ func (in *Interp) implements(t types.Type, iface *types.Interface) bool {
 	ms := in.Prog.MethodSets.MethodSet(t)
 	for i := 0; i < iface.NumMethods(); i++ {
 		m := iface.Method(i)
-		if ms.Lookup(m.Pkg(), m.Name()) == nil {
+		sel := ms.Lookup(m.Pkg(), m.Name())
+		if sel == nil {
+			return false
+		}
+		// the method must have the interface method's signature, not just its name
+		// (types.Identical on signatures ignores the receiver)
+		if !types.Identical(sel.Type(), m.Type()) {
 			return false
 		}
 	}
